@@ -1,4 +1,5 @@
 import Gbo.Model.Connect
+import Gbo.Proofs.Provenance
 /-
   C04 — output geometry comes from the inputs.  Proved here: every ring the model hands to the result is
   closed (what `Polygon::new` / `LineString::close` guarantees) and on the shortcut path the rings are the
@@ -36,5 +37,33 @@ theorem C04_shortcut_rings_unchanged (a b : MPoly) :
     ∧ trivialResult a b .intersection = [] := ⟨rfl, rfl, rfl, rfl⟩
 
 example : closeRing [⟨0,0⟩, ⟨1,0⟩, ⟨1,1⟩] = [⟨0,0⟩, ⟨1,0⟩, ⟨1,1⟩, ⟨0,0⟩] := by decide +kernel
+
+/-- **No invented vertices, one step of the sweep.**  `possible_intersection` (every arithmetic, both the
+    crossing and the collinear-overlap branch, all return codes) never changes the point of an existing
+    event, and every event it appends sits at the intersection point the routine computed or at the point of
+    an existing event — in corner case 1 of `divide_segment` moved by one representable number in x.
+    Stated as an invariant: any predicate `Q` on points that holds for all present events and for the computed
+    intersection point, and is closed under that bump, holds for all events afterwards. -/
+theorem C04_step_provenance (ar : Arith) (cfg : Cfg) (st st' : SwSt) (se1 se2 o1 o2 r : Nat) (Q : Pt → Prop)
+    (h1 : st.arena[se1]!.other = some o1) (h2 : st.arena[se2]!.other = some o2)
+    (hs1 : se1 < st.arena.size) (hs2 : se2 < st.arena.size) (ho1 : o1 < st.arena.size) (ho2 : o2 < st.arena.size)
+    (hQ : PointsIn st.arena Q) (hb : ∀ q, Q q → Q { q with x := ar.nextUp q.x })
+    (hi : ∀ p, ar.isect st.arena[se1]!.point st.arena[o1]!.point st.arena[se2]!.point st.arena[o2]!.point = .point p → Q p)
+    (h : possibleIntersection ar cfg st se1 se2 = .ok (r, st')) :
+    PointsIn st'.arena Q ∧ st.arena.size ≤ st'.arena.size ∧
+    ∀ i, i < st.arena.size → st'.arena[i]!.point = st.arena[i]!.point := by
+  obtain ⟨a, b, c⟩ := possibleIntersection_points ar cfg st st' se1 se2 o1 o2 r Q h1 h2 hs1 hs2 ho1 ho2 hQ hb hi h
+  exact ⟨a, b, c⟩
+
+/-- under exact arithmetic there is no bump: the new points are exactly the computed intersection point or
+    points of existing events -/
+theorem C04_step_provenance_exact (cfg : Cfg) (st st' : SwSt) (se1 se2 o1 o2 r : Nat) (Q : Pt → Prop)
+    (h1 : st.arena[se1]!.other = some o1) (h2 : st.arena[se2]!.other = some o2)
+    (hs1 : se1 < st.arena.size) (hs2 : se2 < st.arena.size) (ho1 : o1 < st.arena.size) (ho2 : o2 < st.arena.size)
+    (hQ : PointsIn st.arena Q)
+    (hi : ∀ p, Arith.exact.isect st.arena[se1]!.point st.arena[o1]!.point st.arena[se2]!.point st.arena[o2]!.point = .point p → Q p)
+    (h : possibleIntersection Arith.exact cfg st se1 se2 = .ok (r, st')) :
+    PointsIn st'.arena Q :=
+  (C04_step_provenance Arith.exact cfg st st' se1 se2 o1 o2 r Q h1 h2 hs1 hs2 ho1 ho2 hQ (fun q hq => hq) hi h).1
 
 end Gbo.Props
